@@ -336,7 +336,19 @@ func (a *BigInt) pow(b, m *BigInt) (Object, error) {
 		}
 		return fa.M__pow__(fb, None)
 	}
-	return (*BigInt)(new(big.Int).Exp((*big.Int)(a), (*big.Int)(b), (*big.Int)(m))).MaybeInt(), nil
+	if m != nil {
+		if (*big.Int)(m).Sign() == 0 {
+			return nil, ExceptionNewf(ValueError, "pow() 3rd argument cannot be 0")
+		}
+		// Exp ignores the sign of m and returns a result in [0, |m|)
+		r := new(big.Int).Exp((*big.Int)(a), (*big.Int)(b), (*big.Int)(m))
+		if (*big.Int)(m).Sign() < 0 && r.Sign() != 0 {
+			// the result takes the sign of the modulus
+			r.Add(r, (*big.Int)(m))
+		}
+		return (*BigInt)(r).MaybeInt(), nil
+	}
+	return (*BigInt)(new(big.Int).Exp((*big.Int)(a), (*big.Int)(b), nil)).MaybeInt(), nil
 }
 
 func (a *BigInt) M__pow__(other, modulus Object) (Object, error) {
